@@ -252,7 +252,7 @@ func init() {
 		ID:    "C08",
 		Level: "exploration",
 		Rule: "bounded-exhaustive: every sequence of <=k lexemes of the full lexeme alphabet (joined with and without spaces) at the lexer, parser and EvaluateString seams; " +
-			"every byte prefix and every single-token deletion/duplication/adjacent swap of a corpus of annotated valid templates; short sequences also as page/layout/component file content, and as an unused file under layouts/ and components/, through NewTemplate; trees whose files refer to each other in a cycle (components, layouts, self-reference). " +
+			"every byte prefix and every single-token deletion/duplication/adjacent swap of a corpus of annotated valid templates; short sequences also as page/layout/component file content, and as an unused file under layouts/ and components/, through NewTemplate; an illegal character in every name position of the directives and of object literals; trees whose files refer to each other in a cycle (components, layouts, self-reference). " +
 			"Cases are enumerated without repetition; a case is non-trivial when it is not a well-formed template (it contains an unterminated/unbalanced construct, an illegal character, or is a must-reject prefix)",
 		Bounds: func(tier string) map[string]any {
 			if tier == "thorough" {
@@ -420,6 +420,18 @@ func c08Run(c *Ctx) {
 				src := c08Join(segs[:i]) + junk + c08Join(segs[i:])
 				for _, seam := range []string{"parse", "eval", "page", "component"} {
 					c08Do(c, c08Case{Mode: "illegal-at-boundary", Seam: seam, Src: src}, int64(3000+len(src)))
+				}
+			}
+		}
+	}
+
+	// (b4) an illegal character where a directive or an object literal expects a name: rejected like anywhere else
+	if c.Mine() {
+		for _, ch := range []string{"^", "#", "\xff"} {
+			for _, form := range []string{"@reserve(%s)", "@insert(%s, 'x')", "@each(%s in [1, 2])x@end", "{{ {%s: 1} }}", "@component(%s)", "@use(%s)", "@component('c')@slot(%s)b@end@end", "@for(%s = 0; false; 1)x@end", "{{ %s = 1 }}", "{{ o.%s }}", "{{ 's'.%s() }}", "@dump(%s)"} {
+				src := "a " + fmt.Sprintf(form, ch) + " b"
+				for _, seam := range []string{"parse", "eval", "page"} {
+					c08Do(c, c08Case{Mode: "illegal-in-name-position", Seam: seam, Src: src, MustReject: true, Why: "illegal-character-in-name-position"}, int64(4000+len(src)))
 				}
 			}
 		}
